@@ -29,8 +29,8 @@ package did
 //@ func Parse
 //@   assumes result1 == nil ==> result0 == parsedDID(str)
 //@   ensures [C16,C10] accepted: result1 == nil ==> hasPrefix(str, "did:key:") && parseSet(result0.code) && didDefined(result0)
-//@   ensures [C16] exact: (result1 == nil) == parseOK(str)
-//@   ensures [C16] value: result1 == nil ==> result0.bytes == mbDecData(substr(str, 8, len(str))) && result0.code == uvVal(result0.bytes)
+//@   ensures [C16,C07] exact: (result1 == nil) == parseOK(str)
+//@   ensures [C16,C07] value: result1 == nil ==> result0.bytes == mbDecData(substr(str, 8, len(str))) && result0.code == uvVal(result0.bytes)
 //@   ensures [C16] rejected: result1 != nil ==> result0 == Undef
 //@   ensures [C16] wf: result1 == nil ==> wfDID(result0)
 //@   ensures [C09] total: true
